@@ -15,6 +15,7 @@ import (
 	"go/constant"
 	"go/token"
 	"go/types"
+	"os"
 	"strings"
 
 	"golang.org/x/tools/go/ssa"
@@ -74,10 +75,11 @@ type State struct {
 	decided map[RV]bool
 	canon   map[string]RV // canonical load of a cell with unknown content
 	nilOf   map[RV]bool   // values whose nil test was decided at a branch on this path: true = nil
+	lens    map[RV]int64  // length of the slice an append produced when it last ran on this path
 }
 
 func newState() *State {
-	return &State{nilOf: map[RV]bool{}, canon: map[string]RV{}, mem: map[string]RV{}, bind: map[RV][]RV{}, sel: map[RV]int{}, phi: map[RV]RV{}, visits: map[[2]int]int{}, dargs: map[*Frame][][]RV{},
+	return &State{lens: map[RV]int64{}, nilOf: map[RV]bool{}, canon: map[string]RV{}, mem: map[string]RV{}, bind: map[RV][]RV{}, sel: map[RV]int{}, phi: map[RV]RV{}, visits: map[[2]int]int{}, dargs: map[*Frame][][]RV{},
 		defers: map[*Frame][]*ssa.Defer{}, decided: map[RV]bool{}}
 }
 
@@ -88,6 +90,9 @@ func (s *State) clone() *State {
 	}
 	for k, v := range s.nilOf {
 		n.nilOf[k] = v
+	}
+	for k, v := range s.lens {
+		n.lens[k] = v
 	}
 	for k, v := range s.bind {
 		n.bind[k] = v
@@ -145,8 +150,8 @@ type PPA struct {
 	// HeapForward also forwards a store to a field of an object reached through a parameter
 	// of the analysed function (x.f = v ... x.f) to later loads on the path, as long as no call,
 	// go, channel operation or deferred call intervenes.
-	foldDepth   int
-	resDepth    int
+	foldDepth int
+	resDepth  int
 	// IntHook lets a rule give an integer value to a (resolved) value, e.g. len(x) = 2 in this scenario;
 	// it takes part in the constant folding of counters and comparisons.
 	IntHook     func(e *PPA, st *State, rv RV) (int64, bool)
@@ -506,6 +511,36 @@ func (e *PPA) Resolve(st *State, rv RV) RV {
 				return rv
 			}
 			rv = val
+		case *ssa.Index:
+			// element of an array value loaded from a local array whose elements were stored individually
+			// (range over an array literal), the index a constant or a folded loop counter
+			if _, isArr := v.X.Type().Underlying().(*types.Array); !isArr {
+				return rv
+			}
+			base := e.Resolve(st, RV{rv.F, v.X})
+			u, ok := base.V.(*ssa.UnOp)
+			if !ok || u.Op != token.MUL {
+				return rv
+			}
+			key, ok := e.cellKey(st, RV{base.F, u.X})
+			if !ok {
+				return rv
+			}
+			k, ok := constInt(v.Index)
+			if !ok {
+				if e.resDepth > 24 {
+					return rv
+				}
+				k, ok = e.intVal(st, e.Resolve(st, RV{rv.F, v.Index}), 0)
+			}
+			if !ok {
+				return rv
+			}
+			val, ok := st.mem[fmt.Sprintf("%s[%d]", key, k)]
+			if !ok {
+				return rv
+			}
+			rv = val
 		case *ssa.BinOp:
 			// integer arithmetic on constants (loop counters resolved through φ by the path)
 			if v.Op != token.ADD && v.Op != token.SUB && v.Op != token.QUO && v.Op != token.MUL {
@@ -583,7 +618,12 @@ func (e *PPA) cellKey(st *State, addr RV) (string, bool) {
 			}
 		}
 	case *ssa.IndexAddr:
-		if c, ok := constInt(v.Index); ok {
+		c, ok := constInt(v.Index)
+		if !ok {
+			// an index that is a folded loop counter on this path
+			c, ok = e.intVal(st, e.Resolve(st, RV{a.F, v.Index}), 0)
+		}
+		if ok {
 			if k, ok := e.cellKey(st, RV{a.F, v.X}); ok {
 				return fmt.Sprintf("%s[%d]", k, c), true
 			}
@@ -841,6 +881,26 @@ func (e *PPA) exec(fr *Frame, b *ssa.BasicBlock, i int, st *State, k cont) {
 		case *ssa.Call:
 			if _, ok := in.Call.Value.(*ssa.Builtin); ok {
 				name := in.Call.Value.(*ssa.Builtin).Name()
+				if name == "append" && len(in.Call.Args) == 2 {
+					// the length of the result as of this execution (a loop re-runs the same instruction:
+					// its operand then resolves to the previous execution's result)
+					self := RV{fr, in}
+					base, okb := e.sliceLen(st, e.Resolve(st, RV{fr, in.Call.Args[0]}), 0)
+					var n int64
+					okn := false
+					if k, ok := literalLen(in.Call.Args[1]); ok {
+						n, okn = k, true
+					} else if isNilConst(in.Call.Args[1]) {
+						n, okn = 0, true
+					} else if k, ok := e.sliceLen(st, e.Resolve(st, RV{fr, in.Call.Args[1]}), 0); ok {
+						n, okn = k, true
+					}
+					if okb && okn {
+						st.lens[self] = base + n
+					} else {
+						delete(st.lens, self)
+					}
+				}
 				if name == "close" || name == "delete" || name == "append" || name == "panic" || name == "copy" {
 					ev := e.callEv(st, fr, in, "")
 					if name == "delete" {
@@ -851,6 +911,10 @@ func (e *PPA) exec(fr *Frame, b *ssa.BasicBlock, i int, st *State, k cont) {
 				continue
 			}
 			callee := e.calleeOf(st, fr, &in.Call)
+			if debugCalls && !in.Call.IsInvoke() && staticCallee(&in.Call) == nil {
+				r := e.Resolve(st, RV{fr, in.Call.Value})
+				fmt.Fprintf(os.Stderr, "DYN %s -> %T %s callee=%v\n", Expr(in.Call.Value), r.V, Expr(r.V), callee != nil)
+			}
 			if callee != nil && len(callee.Blocks) > 0 && fr.depth() < e.MaxDepth && ((e.Inline != nil && e.Inline(fr, in, callee)) || e.auto(st, fr, in, callee)) {
 				e.inlineCall(fr, in, &in.Call, callee, st, func(st *State, rets []RV) {
 					st.bind[RV{fr, in}] = rets
@@ -961,7 +1025,10 @@ func (e *PPA) auto(st *State, fr *Frame, in ssa.CallInstruction, callee *ssa.Fun
 	if e.NoAuto || e.Opaque[callee] || neverAuto[fnName(callee)] {
 		return false
 	}
-	if rp := pkgPathOf(e.root.Fn); rp != "" && pkgPathOf(callee) != rp {
+	// a bound method value / thunk is a synthetic forwarder: entering it shows the call it stands for, whatever
+	// package declares the method
+	synthetic := strings.HasSuffix(callee.Name(), "$bound") || strings.HasSuffix(callee.Name(), "$thunk")
+	if rp := pkgPathOf(e.root.Fn); rp != "" && pkgPathOf(callee) != rp && !synthetic {
 		return false
 	}
 	local := callee.Parent() != nil
@@ -979,7 +1046,7 @@ func (e *PPA) auto(st *State, fr *Frame, in ssa.CallInstruction, callee *ssa.Fun
 			return false
 		}
 	}
-	if len(callee.Blocks) > 60 {
+	if len(callee.Blocks) > 120 {
 		return false
 	}
 	// constructors stay symbolic: the objects they return keep one identity and
@@ -1239,6 +1306,9 @@ func (e *PPA) intVal(st *State, rv RV, d int) (int64, bool) {
 func (e *PPA) sliceLen(st *State, s RV, d int) (int64, bool) {
 	if d > 12 {
 		return 0, false
+	}
+	if n, ok := st.lens[s]; ok {
+		return n, true
 	}
 	switch v := s.V.(type) {
 	case *ssa.Const:
@@ -1662,3 +1732,5 @@ func zeroConst(t types.Type) *ssa.Const {
 	}
 	return nil
 }
+
+var debugCalls = os.Getenv("VERIF_DEBUG_CALLS") != ""
